@@ -43,9 +43,14 @@ OfType(ty) == {e \in E : edges[e].ty = ty}
 RECURSIVE SeqOfSet(_)
 SeqOfSet(S) == IF S = {} THEN <<>> ELSE LET m == CHOOSE x \in S : \A y \in S : x <= y IN <<m>> \o SeqOfSet(S \ {m})
 \* edge views: [kind |-> "type", ty] = net.<Type>;  [kind |-> "kth", ty, k] = net.<Type>.edge(k)
+\*             [kind |-> "rows", ty, k] = net.select(nodes = RowSets[k]): the synapses with BOTH ends among these compartments;
+\*             a key <ty>_w set through it reaches the synapses of that type inside it (other types share the view, not the column)
+RowSets == <<{0, 1, 2, 3, 4}, {3, 4, 5}>>
 ViewEdges(ev) == IF ev.kind = "type" THEN OfType(ev.ty)
+                 ELSE IF ev.kind = "rows" THEN {e \in OfType(ev.ty) : edges[e].pre \in RowSets[ev.k] /\ edges[e].post \in RowSets[ev.k]}
                  ELSE IF ev.k < Cardinality(OfType(ev.ty)) THEN {SeqOfSet(OfType(ev.ty))[ev.k + 1]} ELSE {}
 EdgeViews == [kind : {"type"}, ty : Types, k : {0}] \cup [kind : {"kth"}, ty : Types, k : {0, 1}]
+RowViews == [kind : {"rows"}, ty : Types, k : {1, 2}]
 Range(s) == {s[i] : i \in DOMAIN s}
 
 Wiring == obs = <<>> /\ nedit = 0
